@@ -1,9 +1,23 @@
 from common import T_COMMON
 
+T_PLY = ["engine H harness /verif/go/harness (c04.go, c08.go, util_ply.go: generators, canonicalisation, independent Go reference encoder); correspondence is differential testing",
+         "Driver/PlyIO.lean: `Coding Float` instance (Float32 casts, exact decimal printer for dyadic values, decimal parser) — executed, not proved; checked against strconv / math by every c04.write / c04.read / c08.read line",
+         "Go toolchain/runtime/stdlib (strconv, encoding/binary, bufio.Scanner, strings.Fields)"]
+
 CFG = dict(
-    theorems=["put32_get32"],
-    streams=[dict(name="c04", n=dict(quick=150, thorough=6000))],
-    trusted=T_COMMON,
-    residue=[],
-    assumptions=[],
+    theorems=["ply_put_get_32", "ply_put_get_64", "ply_wire_roundtrip_field", "ply_wire_roundtrip_record",
+              "ply_header_describes_body_counts", "ply_header_describes_body_schema",
+              "ply_header_describes_body_record_size", "ply_header_describes_body_face_size",
+              "ply_record_roundtrip_scalar", "ply_ascii_scalar_reads_raw", "ply_encodings_disagree_uchar_scalar"],
+    streams=[dict(name="c04", n=dict(quick=150, thorough=4000))],
+    trusted=T_PLY,
+    residue=["ply_roundtrip_full / ply_roundtrip_partial_stmt (whole file: writeMesh then readMesh satisfies RoundTrips) is a def … : Prop, NOT a theorem; it is evaluated on the implementation's write→read output by the c04.holds.roundtrip oracle on every generated mesh × configuration × encoding",
+             "ply_encodings_agree_full is a def … : Prop, NOT a theorem (false for 8-bit scalar properties: ply_encodings_disagree_uchar_scalar, known finding); evaluated by c04.holds.encodings_agree",
+             "record layer proved for scalar (float1) properties in any header order; the 2-/3-/4-vector claim scan (buildVec: uniform-type check, IgnorableW fallback) and the face loop are modelled and corresponded, not proved",
+             "ASCII wire layer (lines, tokens, strconv print/parse) and the header parser are modelled and corresponded byte-for-byte (c04.write, c04.header, c04.read), not proved",
+             "scalar coding enters through the bundle `Coding α`; theorems hold for every coding and are phrased with quantBin = decode∘encode; that Go's float32 narrowing / 8-bit rounding is what the driver instance computes is checked by correspondence only",
+             "ASCII generators use dyadic values with ≤ 13 significant digits (exact shortest printing); arbitrary doubles only in the binary encodings",
+             "user float2/3/4 attributes are written as name_k scalars and come back as scalars (RoundTrips does not demand them); Color as float4 is not claimed by the default writer"],
+    assumptions=["uint32(float64) for negative values wraps as on amd64 (binary `int` writer)",
+                 "well-formed meshes: all attribute arrays one length (AttributeLength reads an arbitrary map entry otherwise)"],
 )
